@@ -2,6 +2,7 @@ package leader
 
 import (
 	"context"
+	"sync"
 	"time"
 
 	"github.com/nats-io/nats.go"
@@ -464,22 +465,31 @@ func (a *natsKeyValueAdapter) Watch(key string, opts ...interface{}) (Watcher, e
 }
 
 type natsWatcherAdapter struct {
-	watcher nats.KeyWatcher
+	watcher   nats.KeyWatcher
+	once      sync.Once
+	entryChan chan Entry
 }
 
+// Updates returns the channel on which the watcher's events are delivered. It
+// is the same channel on every call: the election's watch loop calls Updates()
+// in every iteration of its select, and a channel plus a forwarding goroutine
+// per call would leak two goroutines per iteration, with the orphaned
+// goroutines swallowing events meant for the loop.
 func (a *natsWatcherAdapter) Updates() <-chan Entry {
-	entryChan := make(chan Entry, 1)
-	go func() {
-		defer close(entryChan)
-		for natsEntry := range a.watcher.Updates() {
-			if natsEntry != nil {
-				entryChan <- &natsEntryAdapter{entry: natsEntry}
-			} else {
-				entryChan <- nil
+	a.once.Do(func() {
+		a.entryChan = make(chan Entry, 1)
+		go func() {
+			defer close(a.entryChan)
+			for natsEntry := range a.watcher.Updates() {
+				if natsEntry != nil {
+					a.entryChan <- &natsEntryAdapter{entry: natsEntry}
+				} else {
+					a.entryChan <- nil
+				}
 			}
-		}
-	}()
-	return entryChan
+		}()
+	})
+	return a.entryChan
 }
 
 func (a *natsWatcherAdapter) Stop() {
